@@ -152,10 +152,9 @@ fn compute_block_facts<'ast, 'arena>(
             for &local in &op.reads {
                 note_use(&mut uses, &defs, local, local_start);
             }
-            for &local in &op.writes {
-                note_def(&mut defs, local, local_start);
-            }
 
+            // Callees run while the statement is evaluated, i.e. before its own write:
+            // `x get f()` with f reading x uses the value x had before this statement.
             for &callee in &op.direct_callees {
                 let summary = &summaries[callee.0 as usize];
                 if !summary.available {
@@ -167,11 +166,21 @@ fn compute_block_facts<'ast, 'arena>(
                         note_use(&mut uses, &defs, local, local_start);
                     }
                 }
+            }
+            for &callee in &op.direct_callees {
+                let summary = &summaries[callee.0 as usize];
+                if !summary.available {
+                    continue;
+                }
                 for &local in &summary.transitive_capture_writes {
                     if facts.locals[local.0 as usize].owner == function {
                         note_def(&mut defs, local, local_start);
                     }
                 }
+            }
+
+            for &local in &op.writes {
+                note_def(&mut defs, local, local_start);
             }
         }
 
